@@ -517,3 +517,18 @@ Theorem C01_d1_witness_solved :
   exists x, slice_solve RO [1; 2; 2; 1] [1; 0] = Some x /\ solve_via_lu RO [1; 2; 2; 1] [1; 0] = Some x /\
             solves [1; 2; 2; 1] 2 x [1; 0].
 Proof. exact d1_witness_solved. Qed.
+
+(** ** Tie A for the routing predicates (regenerated from /repo/src on every run by tools/tiea/linalg_loops.py): the
+    predicates [is_symmetric] / [is_positive_definite] of utils.rs that decide between the Cholesky and the LU route are the
+    models this property shares with C11.  [src_*] is the Rust function translated statement for statement (flat list,
+    [rs_get], index arithmetic in [Z], early [return false] from the nested loops, a panic = [None]); [is_square_z] is the
+    crate's [is_square] (an [f32] square root, outside the translated subset) as the models see it. *)
+From Coq Require Import ZArith.
+From Compute Require Import Base.RsExpr Base.RsExprMut Generated.linalg_loops Proofs.TieA_linalg_loops.
+Local Close Scope R_scope.
+Theorem C01_model_is_source_is_symmetric :
+  forall (T : Type) (O : Ops T) (m : list T), src_is_symmetric O is_square_z m = is_symmetric O m.
+Proof. exact @tiea_is_symmetric. Qed.
+Theorem C01_model_is_source_is_positive_definite :
+  forall (T : Type) (O : Ops T) (m : list T), src_is_positive_definite O is_square_z m = is_positive_definite O m.
+Proof. exact @tiea_is_positive_definite. Qed.
